@@ -2,6 +2,7 @@
 // depends on uninitialised memory; new_*/delete_* pairs release everything.
 // Monitors: ASan+UBSan on exactly-sized guard-banded buffers (asan build), canaries, differential
 // pre-fill of outputs and scratch, memcheck definedness (mode "memcheck"), LeakSanitizer (mode "leaks").
+#include <pthread.h>
 #include <valgrind/memcheck.h>
 
 #include "ops.h"
@@ -130,8 +131,109 @@ static void builtin_buffers_case(uint64_t m, unsigned rep) {
   case_end(1);
 }
 
+// objects of 4 GiB and more: bytes_of_*() says how large they are, new_*() must hand out that much. Only the first and the
+// last page are touched (the allocation itself is lazy), so this costs address space, not memory.
+static void huge_object_case(unsigned which) {
+  static const char* const nm[] = {"new_vmp_pmat(64 x 128) = 4 GiB", "new_vec_znx_dft(8200 limbs) > 4 GiB", "new_vec_znx_big(8193 limbs) > 4 GiB", "spqlios_alloc(2^32 + 4096)"};
+  if (!case_begin("objects of 4 GiB and more|extent", "%s", nm[which])) return;
+  MODULE* mod = new_module_info(65536, FFT64);
+  uint8_t* p = 0;
+  uint64_t bytes = 0;
+  switch (which) {
+    case 0: bytes = bytes_of_vmp_pmat(mod, 64, 128); p = (uint8_t*)new_vmp_pmat(mod, 64, 128); break;
+    case 1: bytes = bytes_of_vec_znx_dft(mod, 8200); p = (uint8_t*)new_vec_znx_dft(mod, 8200); break;
+    case 2: bytes = bytes_of_vec_znx_big(mod, 8193); p = (uint8_t*)new_vec_znx_big(mod, 8193); break;
+    default: bytes = (1ull << 32) + 4096; p = spqlios_alloc(bytes); break;
+  }
+  if (!p) {
+    cnt("huge_object_allocation_refused", 1);  // out of address space: nothing to observe
+    delete_module_info(mod);
+    case_end(0);
+    return;
+  }
+  const void* bad = 0;
+#if VP_ASAN
+  bad = __asan_region_is_poisoned(p + bytes - 4096, 4096);
+  if (!bad) bad = __asan_region_is_poisoned(p, 4096);
+#endif
+  if (bad) viol("extent", "%s: bytes_of says %" PRIu64 " bytes, byte %" PRIu64 " of the object lies outside the allocation", nm[which], bytes, (uint64_t)((const uint8_t*)bad - p));
+  else {
+    memset(p, 0x3C, 4096);
+    memset(p + bytes - 4096, 0x3C, 4096);  // faults / is reported by ASan if the block is shorter than announced
+  }
+  switch (which) {
+    case 0: delete_vmp_pmat((VMP_PMAT*)p); break;
+    case 1: delete_vec_znx_dft((VEC_ZNX_DFT*)p); break;
+    case 2: delete_vec_znx_big((VEC_ZNX_BIG*)p); break;
+    default: spqlios_free(p); break;
+  }
+  delete_module_info(mod);
+  cnt("huge_objects_checked", 1);
+  sample("%" PRIu64 " bytes announced, first and last page writable", bytes);
+  case_end(1);
+}
+
+// the *_simple conversions keep a table behind the scenes whose dimension is read back by the kernel: two threads using
+// different dimensions at the same time (after the warm-up) must each stay inside their own exact-size buffers
+typedef struct {
+  uint64_t m;
+  int iters;
+  pthread_barrier_t* bar;
+} csz_t;
+static void* csz_worker(void* arg) {
+  csz_t* c = arg;
+  const uint64_t n = 2 * c->m;
+  gbuf_t gi, go, go2;
+  double* x = gb_alloc(&gi, n * 8, 8, 8, 4096);
+  int64_t* o = gb_alloc(&go, n * 8, 8, 16, 4096);
+  int32_t* o2 = gb_alloc(&go2, n * 4, 8, 24, 4096);
+  for (uint64_t i = 0; i < n; i++) x[i] = (double)(int64_t)(i * 37 % 1000) + 0.25;
+  pthread_barrier_wait(c->bar);
+  for (int it = 0; it < c->iters; it++) {
+    reim_to_znx64_simple((uint32_t)c->m, 2.0, 50, o, x);
+    cplx_to_tnx32_simple((uint32_t)c->m, 2.0, 18, o2, x);
+    reim_from_znx64_simple((uint32_t)c->m, 40, x, o);
+  }
+  gb_free(&gi); gb_free(&go); gb_free(&go2);
+  return 0;
+}
+static void simple_sizes_threads_case(unsigned rep) {
+  if (!case_begin("simple conversions|2 threads,different dimensions,exact-size buffers", "rep=%u", rep)) return;
+  static const uint64_t M1[] = {8, 16, 64}, M2[] = {4096, 1024, 2048};
+  csz_t c[2] = {{M1[rep % 3], 0, 0}, {M2[rep % 3], 0, 0}};
+  // documented warm-up: one call per dimension
+  for (int t = 0; t < 2; t++) {
+    const uint64_t n = 2 * c[t].m;
+    double* x = calloc(n, 8);
+    int64_t* o = malloc(n * 8);
+    int32_t* o2 = malloc(n * 4);
+    reim_to_znx64_simple((uint32_t)c[t].m, 2.0, 50, o, x);
+    cplx_to_tnx32_simple((uint32_t)c[t].m, 2.0, 18, o2, x);
+    reim_from_znx64_simple((uint32_t)c[t].m, 40, x, o);
+    free(x); free(o); free(o2);
+  }
+  pthread_t tid[2];
+  pthread_barrier_t bar;
+  pthread_barrier_init(&bar, 0, 2);
+  for (int t = 0; t < 2; t++) {
+    c[t].iters = c[t].m <= 64 ? 60000 : 2000;
+    c[t].bar = &bar;
+    pthread_create(&tid[t], 0, csz_worker, &c[t]);
+  }
+  for (int t = 0; t < 2; t++) pthread_join(tid[t], 0);
+  pthread_barrier_destroy(&bar);
+  cnt("instrumented_calls", 3 * (uint64_t)(c[0].iters + c[1].iters));
+  sample("m=%" PRIu64 " and m=%" PRIu64 " at the same time, every access inside the callers' exact-size buffers", c[0].m, c[1].m);
+  case_end(1);
+}
+
 void run_C11(void) {
   const int th = G.thorough;
+  if (strcmp(G.mode, "leaks") && strcmp(G.mode, "memcheck")) {
+    for (unsigned rep = 0; rep < (th ? 12u : 3u); rep++) simple_sizes_threads_case(rep);
+    if (strcmp(G.mode, "conc"))
+      for (unsigned w = 0; w < 4; w++) huge_object_case(w);
+  }
   if (strcmp(G.mode, "leaks"))
     for (uint64_t m = 1; m <= (!strcmp(G.mode, "memcheck") ? 256u : 4096u); m <<= 1)
       for (unsigned rep = 0; rep < (th ? 6u : 2u); rep++) builtin_buffers_case(m, rep);
